@@ -408,6 +408,9 @@ func NewSchema(r *Rng) *GSchema {
 	for i := 0; i < nIfaces; i++ {
 		t := &GType{Kind: "interface", Name: fmt.Sprintf("N%d", i+1)}
 		t.Fields = append(t.Fields, GField{Name: "id", Type: "ID!"})
+		if r.Chance(1, 2) {
+			t.Fields = append(t.Fields, GField{Name: fmt.Sprintf("items%d", i+1), Type: Pick(r, []string{"[String!]!", "[[Int!]]", "[E1!]"})})
+		}
 		nf := r.Intn(3)
 		for j := 0; j < nf; j++ {
 			t.Fields = append(t.Fields, GField{Name: fmt.Sprintf("n%d_%d", i+1, j+1), Type: wrapType(r, Pick(r, append(scalarNames, "E1")), r.Intn(2)), Args: mkArgs()})
@@ -567,6 +570,15 @@ func NewSchema(r *Rng) *GSchema {
 	if r.Chance(1, 6) {
 		// extension-only type
 		s.Types = append(s.Types, &GType{Kind: "type", Name: "OnlyExt", Ext: true, Fields: []GField{{Name: "x", Type: "Int"}}})
+	}
+	if r.Chance(1, 3) {
+		// a type whose name differs from another one only in case (names are case sensitive)
+		s.Types = append(s.Types, &GType{Kind: "type", Name: "o1", Fields: []GField{{Name: "lower", Type: "Int"}}})
+	}
+	if r.Chance(1, 4) {
+		// an interface that exists only as an extension, implemented through another extension
+		s.Types = append(s.Types, &GType{Kind: "interface", Name: "XN", Ext: true, Fields: []GField{{Name: "xid", Type: "ID"}}})
+		s.Types = append(s.Types, &GType{Kind: "type", Name: objs[0].Name, Ext: true, Ifaces: []string{"XN"}, Fields: []GField{{Name: "xid", Type: "ID"}}})
 	}
 	if r.Chance(1, 5) {
 		s.Directives = append(s.Directives, &GDirective{Name: "deprecated", Args: []GArg{{Name: "reason", Type: "String", Default: "\"No longer supported\""}},
@@ -737,6 +749,33 @@ var SchemaFaults = []Fault{
 			}
 		}
 		return true
+	}},
+	{"interface-field-inner-nullability-weakened", func(r *Rng, s *GSchema) bool {
+		for _, t := range s.Types {
+			if (t.Kind != "type" && t.Kind != "interface") || t.Ext {
+				continue
+			}
+			for _, iname := range t.Ifaces {
+				it := s.find(iname)
+				if it == nil {
+					continue
+				}
+				for _, f := range it.Fields {
+					if k := strings.Index(f.Type, "!]"); k >= 0 {
+						for i := range t.Fields {
+							if t.Fields[i].Name == f.Name {
+								ft := t.Fields[i].Type
+								if j := strings.Index(ft, "!]"); j >= 0 {
+									t.Fields[i].Type = ft[:j] + ft[j+1:]
+									return true
+								}
+							}
+						}
+					}
+				}
+			}
+		}
+		return false
 	}},
 	{"interface-argument-missing", func(r *Rng, s *GSchema) bool {
 		t, it := firstImplementer(s)
